@@ -447,7 +447,7 @@ static void c11_case(uint64_t idx)
 {
     vh_rng r; unsigned f = (unsigned)(idx % 8); uint64_t q = idx / 8;
     static const char *const kn[8] = {"skinny128_set_key", "skinny128_set_tweaked_key", "skinny128_set_tweak", "skinny64_set_key", "skinny64_set_tweaked_key", "skinny64_set_tweak", "mantis_set_key", "mantis_set_tweak"};
-    unsigned bb = f < 3 ? 16 : 8, L; uint8_t src[64], blk[16], out[16]; int ret = 1; char k_[200];
+    unsigned bb = f < 3 ? 16 : 8, L; uint8_t src[64], blk[16], out[16]; int ret = 1, unlisted = 0; char k_[200];
     vh_rng_seed(&r, vh_seed, 0x11, idx);
     begin(idx, "C11");
     vh_rand_bytes(&r, src, 64); vh_rand_bytes(&r, blk, 16);
@@ -498,10 +498,17 @@ static void c11_case(uint64_t idx)
         MantisKey_t a;
         vh_make_undef(&a, sizeof(a));
         vh_call_begin(kn[f]);
-        ret = mantis_set_key(&a, src, 16, 5 + (unsigned)(q % 4), (int)((q >> 2) & 1));
-        if (f == 7) ret &= mantis_set_tweak(&a, (q & 64) ? NULL : src + 16, 8);
+        {   /* 1 case in 4: a mode value other than the two named ones.  Whether it is accepted is the library's business, but
+               if the call reports success the schedule must be fully assigned (and if it fails nothing is looked at) */
+            static const int odd[4] = {2, -1, 7, 0x100};
+            int mode = (int)((q >> 2) & 1);
+            if (((q >> 3) & 3) == 3) { mode = odd[(q >> 5) & 3]; unlisted = 1; VH_COUNT("mantis_set_key_calls_with_unlisted_mode_value", 1); }
+            ret = mantis_set_key(&a, src, 16, 5 + (unsigned)(q % 4), mode);
+        }
+        if (f == 7 && ret) ret &= mantis_set_tweak(&a, (q & 64) ? NULL : src + 16, 8);
         vh_call_end();
         vh_check_defined("return-value", &ret, sizeof(ret));
+        if (unlisted && !ret) { VH_COUNT("key_setting_calls_checked", 1); return; }
         vh_check_defined("schedule.k0", &a.k0, 8); vh_check_defined("schedule.k0prime", &a.k0prime, 8); vh_check_defined("schedule.k1", &a.k1, 8);
         vh_check_defined("schedule.tweak", &a.tweak, 8); vh_check_defined("schedule.rounds", &a.rounds, sizeof(a.rounds));
         vh_call_begin("mantis_ecb_crypt"); mantis_ecb_crypt(out, blk, &a); vh_call_end();
